@@ -84,6 +84,81 @@ theorem mem_dedup {a : Name} {l : List Name} : a ∈ dedup l ↔ a ∈ l := by
         · exact h
     · simp [ih]
 
+theorem mem_dedupFirst {a : Name} : ∀ {l : List Name}, a ∈ dedupFirst l ↔ a ∈ l
+  | [] => by simp [dedupFirst]
+  | x :: xs => by
+    simp only [dedupFirst, List.mem_cons, List.mem_filter, mem_dedupFirst (l := xs)]
+    by_cases h : a = x
+    · simp [h]
+    · simp [h]
+
+theorem nodup_dedupFirst : ∀ l : List Name, (dedupFirst l).Nodup
+  | [] => List.nodup_nil
+  | x :: xs => by
+    simp only [dedupFirst, List.nodup_cons, List.mem_filter]
+    refine ⟨?_, List.Nodup.sublist List.filter_sublist (nodup_dedupFirst xs)⟩
+    intro h
+    simp at h
+
+theorem mem_assignLabels {frame keys : List Name} {c : Name} : c ∈ assignLabels frame keys ↔ c ∈ frame ∨ c ∈ keys := by
+  unfold assignLabels
+  simp only [List.mem_append, List.mem_filter, mem_dedupFirst, Bool.not_eq_true', List.contains_eq_mem,
+    decide_eq_false_iff_not]
+  constructor
+  · rintro (h | h)
+    · exact Or.inl h
+    · exact Or.inr h.1
+  · rintro (h | h)
+    · exact Or.inl h
+    · by_cases hf : c ∈ frame
+      · exact Or.inl hf
+      · exact Or.inr ⟨h, hf⟩
+
+/-! ### injective label maps -/
+
+theorem inj_of_nodup_map {α : Type} (f : α → Name) : ∀ (l : List α), (l.map f).Nodup →
+    ∀ a b, a ∈ l → b ∈ l → f a = f b → a = b
+  | [], _, _, _, ha, _, _ => by cases ha
+  | x :: t, h, a, b, ha, hb, hab => by
+    simp only [List.map_cons, List.nodup_cons, List.mem_map, not_exists, not_and] at h
+    rcases List.mem_cons.mp ha with rfl | ha'
+    · rcases List.mem_cons.mp hb with rfl | hb'
+      · rfl
+      · exact absurd hab.symm (h.1 b hb')
+    · rcases List.mem_cons.mp hb with rfl | hb'
+      · exact absurd hab (h.1 a ha')
+      · exact inj_of_nodup_map f t h.2 a b ha' hb' hab
+
+theorem nodup_map_of_inj {α : Type} (f : α → Name) : ∀ (l : List α), l.Nodup →
+    (∀ a b, a ∈ l → b ∈ l → f a = f b → a = b) → (l.map f).Nodup
+  | [], _, _ => List.nodup_nil
+  | x :: t, h, hinj => by
+    simp only [List.nodup_cons] at h
+    simp only [List.map_cons, List.nodup_cons, List.mem_map, not_exists, not_and]
+    refine ⟨?_, nodup_map_of_inj f t h.2 (fun a b ha hb => hinj a b (by simp [ha]) (by simp [hb]))⟩
+    intro y hy hfy
+    have := hinj y x (by simp [hy]) (by simp) hfy
+    subst this
+    exact h.1 hy
+
+theorem find?_none_of_not_mem_map {α : Type} (f : α → Name) (l : List α) (c : Name) (h : c ∉ l.map f) :
+    l.find? (fun x => f x == c) = none := by
+  rw [List.find?_eq_none]
+  intro x hx hxc
+  exact h (List.mem_map.mpr ⟨x, hx, by simpa using hxc⟩)
+
+theorem find?_eq_of_inj {α : Type} (f : α → Name) (l : List α) (hn : (l.map f).Nodup) {c : α} (hc : c ∈ l) :
+    l.find? (fun x => f x == f c) = some c := by
+  cases hf : l.find? (fun x => f x == f c) with
+  | none =>
+    rw [List.find?_eq_none] at hf
+    exact absurd (by simp) (hf c hc)
+  | some c' =>
+    have h1 := List.find?_some hf
+    have h2 := List.mem_of_find?_eq_some hf
+    have := inj_of_nodup_map f l hn c' c h2 hc (by simpa using h1)
+    rw [this]
+
 theorem setEq_iff {a b : List Name} : setEq a b = true ↔ ∀ c, c ∈ a ↔ c ∈ b := by
   simp only [setEq, Bool.and_eq_true, List.all_eq_true, List.contains_iff_mem]
   constructor
